@@ -365,6 +365,22 @@ func Forall(bound []*Term, body *Term, pats ...[]*Term) *Term {
 	if len(bound) == 0 {
 		return body
 	}
+	var okPats [][]*Term
+	for _, p := range pats {
+		ok := len(p) > 0
+		for _, x := range p {
+			if !patternOK(x) || !isTriggerOp(x) {
+				ok = false
+			}
+		}
+		if ok {
+			okPats = append(okPats, p)
+		}
+	}
+	if len(okPats) == 0 && len(pats) > 0 {
+		okPats = inferPatterns(bound, body)
+	}
+	pats = okPats
 	t := mk("forall", SBool, body)
 	t.Bound = bound
 	t.Pats = pats
@@ -556,6 +572,7 @@ func inferPatterns(bound []*Term, body *Term) [][]*Term {
 	}
 	var walk func(t *Term) map[string]bool
 	seen := map[string]bool{}
+	nested := 0
 	walk = func(t *Term) map[string]bool {
 		vs := map[string]bool{}
 		if t.IsAtom() {
@@ -565,8 +582,10 @@ func inferPatterns(bound []*Term, body *Term) [][]*Term {
 			return vs
 		}
 		if t.Bound != nil {
-			// do not descend into nested quantifiers for triggers
+			// terms under a nested quantifier may mention its bound variables: no candidates there
+			nested++
 			inner := walk(t.Args[0])
+			nested--
 			for _, b := range t.Bound {
 				delete(inner, b.Op)
 			}
@@ -579,7 +598,7 @@ func inferPatterns(bound []*Term, body *Term) [][]*Term {
 			}
 		}
 		_ = childHasCand
-		if len(vs) > 0 && isTriggerOp(t) && patternOK(t) {
+		if len(vs) > 0 && nested == 0 && isTriggerOp(t) && patternOK(t) {
 			s := t.String()
 			if !seen[s] {
 				seen[s] = true
